@@ -34,8 +34,8 @@ def nodes(n):
 
 class C12:
     pid = 'C12'
-    targets = ['theories/RuleTree.vo']
-    header = "From EQL Require Import Base RuleTree.\nOpen Scope string_scope."
+    targets = ['theories/RuleTree.vo', 'theories/RuleTree_Grown.vo']
+    header = "From EQL Require Import Base RuleTree RuleTree_Grown.\nOpen Scope string_scope."
     impl_script = 'impl_rules.py'
     rule = ("random rule programs over one rule variable: a base rule and, nested to depth <= 3 (thorough: <= 5) with 0-3 statements "
             "per block in any order, `with refinement(...)` and `with alternative(...)` blocks under the base, under refinements and "
@@ -44,7 +44,7 @@ class C12:
             "attribute equalities; data = 4-16 items (all 4-bit vectors or a random sample, random order); compared: the operator tree "
             "the implementation holds after the build (left/right from the conditions root) with the builder model and with the "
             "intended tree, and the (item, conclusion) rows of three consecutive evaluations - in 40 % of the cases AFTER an evaluation that was abandoned after 1-12 results -, caching off and on, with the model's "
-            "(as sequences) and with the ripple-down-rule interpreter's (as multisets); non-trivial = at least two different "
+            "(as sequences) and with the ripple-down-rule interpreter's (as multisets); a quarter of the programs are followed by 1-3 LATER SESSIONS (the rule re-entered, one refinement / alternative each, evaluated in between: a later refinement refines the whole tree); non-trivial = at least two different "
             "conclusions are produced and some item matches no branch or a refinement overrides a conclusion")
     explanation = ("C12_rdr (the tree the builder model assembles evaluates to the ripple-down-rule conclusion, for every program) and "
                    "C12_shape are proved in Coq; tie = tree shape and row sequence against the builder / evaluation model")
@@ -77,7 +77,13 @@ class C12:
             body = prog['body']
             cand = [0] + [j for j in range(1, len(body)) if all(k == 'alt' for k, _ in body[j:])]
             case['splits'] = sorted(set(rng.sample(cand, min(len(cand), rng.choice([1, 1, 2])))))
-        if rng.random() < 0.3:
+        if rng.random() < 0.25:
+            # LATER SESSIONS: after the program above (and an evaluation) the rule is re-entered 1-3 times, ONE further statement
+            # per `with rule_mode(query)` session - a refinement then refines the WHOLE tree built so far, an alternative applies
+            # where nothing fired (RuleTree_Grown.grow / sel_grown, C12_grown_sessions)
+            case.pop('splits', None)
+            case['later'] = [[rng.choice(['ref', 'ref', 'alt']), gen_node(rng.choice([0, 0, 1]))] for _ in range(rng.randint(1, 3))]
+        elif rng.random() < 0.3:
             # TWO rule variables: a match is an assignment (x, y).  Bits 0-1 are attributes of x, 2-3 of y, bit 4 is the join
             # x.b0 == y.b2; the base rule mentions both variables, so every branch is decided per assignment
             # (EVERY branch condition mentions both variables - a conclusion is built once per row, from the first value of a variable
@@ -113,6 +119,11 @@ class C12:
 
     def to_coq(self, n, case):
         dom = "[" + "; ".join(f"({i}, [{'; '.join(str(b) for b in bits)}])" for i, bits in case['dom']) + "]"
+        if case.get('later'):
+            later = "BNil"
+            for k, c in reversed(case['later']):
+                later = f"BCons {'KRef' if k == 'ref' else 'KAlt'} ({coq_node(c)}) ({later})"
+            return f"Eval vm_compute in (run_gcase {n} ({coq_node(case['prog'])}) ({later}) {dom})."
         return f"Eval vm_compute in (run_tcase {n} ({coq_node(case['prog'])}) {dom})."
 
     def split(self, s):
@@ -159,6 +170,9 @@ class C12:
         if case.get('splits') is not None:
             d['grown_after_evaluation'] += 1
             d['grown_in_%d_blocks' % (len(case['splits']) + 1)] += 1
+        if case.get('later'):
+            d['later_sessions_one_statement_each'] += len(case['later'])
+            d['later_refinements_of_the_whole_tree'] += sum(1 for k, _ in case['later'] if k == 'ref')
         ns = list(nodes(p))
         d['branches'] += len(ns)
         for n in ns:
@@ -201,6 +215,14 @@ class C12:
             d = copy.deepcopy(case)
             d['splits'] = None
             yield d
+        for j in range(len(case.get('later') or [])):
+            d = copy.deepcopy(case)
+            d['later'].pop(j)
+            yield d
+            if case['later'][j][1]['body']:
+                d = copy.deepcopy(case)
+                d['later'][j][1]['body'] = []
+                yield d
         if case.get('abandon'):
             d = copy.deepcopy(case)
             d['abandon'] = case['abandon'] - 1
